@@ -40,6 +40,7 @@ def std_finish(run, div, tot, rule, classify=None, level="model_checking", extra
                evaluations=tot["n"], distinct_nontrivial=len(run.groups), rule=rule, samples=sample_cases(run),
                groups=len(run.groups), variants=len(run.variants), divergences=len(div), violating_parses=nviol, suppressed_by_known_finding=kcount, known_finding_samples=ksamples,
                trusted_base=["Go toolchain", "TLC 1.8.0", "the harness printer/runner (lib/peg.py, runner/*.go)"])
+    cov["observation_classes"] = getattr(run, "stats", {})
     if extra:
         cov.update(extra)
     return run.finish(level, cov, ["PegRef.tla is the independent definition of the parse result; unicode folding restricted to the model alphabet"])
@@ -234,3 +235,173 @@ def check_C10(tier, seed, replay=None):
                 run.violation(run.replay_path(dict(k=0, vi=v.vi, gi=v.groups[0].gi, ii=1, oi=1, df="state-not-removed", at=0)), "state store code present in an optimized parser without state blocks")
     return std_finish(run, div, tot, "random grammars (plain, with state/Cloner/globalStore/predicates/errors, with throw/recover and multi-byte terminals) x all inputs x flag pairs (X, X + -optimize-parser), X over the other flags; each run compared with PegRef and the two members of a pair with each other (value, error list)",
                       extra=dict(pairs_compared=npairs, stateless_optimized_parsers_checked=removed))
+
+
+# ------------------------------------------------------------------------------------------
+def check_C11(tier, seed, replay=None):
+    """error contract: typed, positioned, accumulated errors; panics contained (fault enumeration over blocks)"""
+    import itertools
+    run = Run("C11", tier, seed)
+    rng = random.Random(seed)
+    ngroups, maxblk, maxlen = (120, 4, 3) if tier == "quick" else (500, 6, 3)
+    cfg = F.RandCfg(depth=3, maxrules=3, preds=True, state=True, errs=0.0, leaves=F.LEAVES_FULL + [("lit", (F.NL,), False)])
+    groups = []
+    seedx = seed * 1000
+    while len(groups) < ngroups:
+        seedx += 1
+        g = F.random_group(random.Random(seedx), len(groups) + 1, cfg)
+        nb = sum(1 for n in g.nodes if n["blk"])
+        if 1 <= nb <= maxblk and not g.maydiverge:
+            groups.append(g)
+    inputs = F.all_inputs([F.A, F.B, F.NL], maxlen)
+    nin = len(inputs)
+    options = []
+    plans = {}
+    for g in groups:
+        blks = [n["blk"] for n in g.nodes if n["blk"]]
+        ois = []
+        for r in range(len(blks) + 1):
+            for sub in itertools.combinations(blks, r):       # every subset of failing blocks
+                options.append(opt(errblks=list(sub), fname=rng.choice(["", "f", "dir/x.peg"])))
+                ois.append(len(options) - 1)
+        for b in blks:                                          # every single block panics, contained or not
+            for rec in (True, False):
+                options.append(opt(panicblk=b, recover=rec, errblks=[x for x in blks if rng.random() < 0.3]))
+                ois.append(len(options) - 1)
+        plans[g.gi] = [(ii, oi) for ii in range(nin) for oi in ois]
+    div, tot = run.execute(groups, inputs, options, lambda g: plans[g.gi], [[], ["-optimize-parser"]])
+    return std_finish(run, div, tot, "random grammars with 1..k code blocks (actions, predicates, state blocks; display names on a third of the rules) x all inputs over {a,b,\\n} x EVERY subset of blocks returning an error x every single block panicking under Recover(true) and Recover(false) x file names; errors compared as (position, rule, message) lists with de-duplication; typing (errList of *parserError, Inner identity, prefix shape) asserted inside the generated package",
+                      level="fault_enumeration", extra=dict(fault_sets=len(options)))
+
+
+def check_C12(tier, seed, replay=None):
+    """a failed parse reports the farthest failure position and the exact expected set"""
+    run = Run("C12", tier, seed)
+    if tier == "quick":
+        base = F.exhaustive(1, F.LEAVES_FULL)
+        nrand, maxlen = 500, 3
+    else:
+        base = F.exhaustive(2, F.LEAVES_SMALL + [("lit", (F.A, F.B), False)])
+        nrand, maxlen = 3000, 4
+    trees = base + [("not", ("not", t)) for t in base[:192]] + [("seq", ("not", t), ("any",)) for t in base[:192]] + \
+        [("seq", ("and", ("not", t)), ("lit", (F.A,), False)) for t in base[:192]]
+    groups = F.groups_from_trees(trees)
+    cfg = F.RandCfg(depth=4, maxrules=3, blocks=True, leaves=F.LEAVES_FULL + F.LEAVES_UTF8, safe_rep=False)
+    groups += F.random_groups(seed, nrand, cfg, gi0=len(groups) + 1)
+    R = F.RUNES
+    inputs = F.all_inputs([R["a"], R["b"], R["nl"], R["eacute"]], maxlen)
+    options = [opt(), opt(maxexpr=3000)]
+    div, tot = run.execute(groups, inputs, options, budget_plan(len(inputs)), FLAGSETS_2 + [["-optimize-basic-latin"]], lower=[[201, 233]])
+    nm = 0
+    from rt import load_obs
+    for p in run.obs:
+        nm += sum(1 for o in load_obs(p).values() if o["nomatch"]["is"])
+    return std_finish(run, div, tot, "E(d) expressions, the same under double negation / after a negative predicate / under &!, random grammars with multi-byte terminals; all inputs over {a,b,\\n,e-acute}; for every failed parse the single error's position and expected SET are compared with PegRef's farthest-failure events, sortedness and duplicates are checked by the runner",
+                      extra=dict(no_match_errors_compared=nm))
+
+
+def check_C14(tier, seed, replay=None):
+    """throw and recover follow the labelled-failure semantics"""
+    from peg import Gram
+    run = Run("C14", tier, seed)
+    n, maxlen, depth = (600, 3, 4) if tier == "quick" else (5000, 4, 5)
+    groups = []
+    # the probes of DESIGN.md (innermost first, fall-through, unlisted labels skipped, continuation, handler scope)
+    def probe(build):
+        g = Gram(len(groups) + 1)
+        build(g)
+        g.disp = [""] * len(g.rules)
+        g.compute_args()
+        g.maydiverge = g.may_diverge()
+        groups.append(g)
+    X, Y, D, Cc = 120, 121, 100, 99
+    probe(lambda g: setattr(g, "rules", [g.recover(g.recover(g.seq([g.lit([F.A]), g.throw("la")]), g.lit([X]), ["la"]), g.lit([Y]), ["la"])]))
+    probe(lambda g: setattr(g, "rules", [g.recover(g.recover(g.seq([g.lit([F.A]), g.throw("lb")]), g.lit([X]), ["la"]), g.lit([Y]), ["lb", "la"])]))
+    probe(lambda g: setattr(g, "rules", [g.seq([g.recover(g.seq([g.lit([F.A]), g.throw("la"), g.lit([Cc])]), g.lit([X]), ["la"]), g.lit([D])])]))
+    probe(lambda g: setattr(g, "rules", [g.seq([g.recover(g.lit([F.A]), g.lit([X]), ["la"]), g.throw("la")])]))
+    probe(lambda g: setattr(g, "rules", [g.recover(g.un("star", g.seq([g.lit([F.A]), g.ref(2)])), g.lit([X]), ["la"]), g.choice([g.lit([F.B]), g.throw("la")])]))
+    probe(lambda g: setattr(g, "rules", [g.recover(g.seq([g.un("not", g.seq([g.lit([F.A]), g.throw("la")])), g.any()]), g.lit([F.A]), ["la"])]))
+    cfg = F.RandCfg(depth=depth, maxrules=3, throw=True, preds=True, blocks=True, errs=0.1)
+    groups += F.random_groups(seed, n, cfg, gi0=len(groups) + 1)
+    cfg2 = F.RandCfg(depth=depth, maxrules=3, throw=True, state=True, blocks=True)
+    groups += F.random_groups(seed + 7, n // 3, cfg2, gi0=len(groups) + 1)
+    inputs = F.all_inputs([F.A, F.B, X], maxlen)
+    options = [opt(), opt(maxexpr=5000)]
+    div, tot = run.execute(groups, inputs, options, budget_plan(len(inputs)), FLAGSETS_2)
+    nthrow = sum(1 for g in groups if any(nn["k"] == "throw" for nn in g.nodes))
+    return std_finish(run, div, tot, "hand-written probes + random grammars with nested recovery operators over 3 labels (shared labels, throws in called rules, inside repetitions and predicates, consuming / failing / nullable recovery expressions, with actions, predicates and state blocks) x all inputs over {a,b,x}; value, end offset, events and errors compared with PegRef's handler-stack semantics",
+                      extra=dict(groups_with_throw=nthrow))
+
+
+# ------------------------------------------------------------------------------------------
+def classify_F3(run, d):
+    import findings
+    o = run.options[d["oi"] - 1]
+    if o["memo"] and o["maxexpr"] > 0 and d["df"] in ("timeout", "oom") and run.groups[d["gi"] - 1].maydiverge:
+        return "F3: " + findings.what("F3")
+    return None
+
+
+def check_C16(tier, seed, replay=None):
+    """MaxExpressions bounds every parse"""
+    import findings
+    from peg import Gram
+    run = Run("C16", tier, seed)
+    groups = []
+    lits = [("lit", (F.A,), False), ("lit", (), False), ("cls", (F.A, F.B), (), False, False)]
+    div_trees = []
+    for e in lits:
+        div_trees += [("star", ("opt", e)), ("plus", ("and", e)), ("star", ("choice", ("lit", (), False), e)), ("star", ("star", e)),
+                      ("seq", ("star", ("opt", e)), ("lit", (F.B,), False)), ("star", ("not", e)),
+                      ("choice", ("seq", ("plus", ("opt", e)), ("lit", (F.B,), False)), ("any",)),
+                      ("star", ("seq", ("opt", e), ("star", ("lit", (), False))))]
+    groups += F.groups_from_trees(div_trees + F.exhaustive(1, F.LEAVES_SMALL))
+    n, maxlen, maxb = (150, 3, 12) if tier == "quick" else (1500, 4, 40)
+    groups += F.random_groups(seed, n, F.RandCfg(depth=4, safe_rep=False, preds=True), gi0=len(groups) + 1)
+    groups += F.random_groups(seed + 3, n // 2, F.RandCfg(depth=4, safe_rep=False, throw=True, state=True), gi0=len(groups) + 1)
+    inputs = F.all_inputs([F.A, F.B], maxlen)
+    nin = len(inputs)
+    options = []
+    for nb in list(range(1, maxb + 1)) + [60, 3000]:
+        for memo in (False, True):
+            options.append(opt(maxexpr=nb, memo=memo))
+    rec_false = len(options)
+    options.append(opt(maxexpr=7, recover=False))
+    options.append(opt(maxexpr=3000, recover=False))
+    nopt = len(options)
+    run.add_witnesses([f["id"] for f in findings.active("C16")], groups, inputs, options)
+
+    def plan_for(g):
+        ois = [i for i in range(nopt) if not (g.maydiverge and options[i]["memo"])]   # F3: not run in bulk
+        return [(ii, oi) for ii in range(nin) for oi in ois]
+    div, tot = run.execute(groups, inputs, options, plan_for, [[], ["-optimize-parser"]], timeout_ms=4000)
+    return std_finish(run, div, tot, "grammars whose repetitions iterate without consuming ((e?)*, (&e)+, (''/e)*, (e*)*, nested, under rules, with recovery) + random grammars x all inputs x budgets n = 1..N and 3000 x Memoize on/off (+ Recover(false)); verdicts: returned in time, budget error iff the meaning needs more than n evaluations (PegRef's count; 'diverges' = always), ExprCnt <= n+1, otherwise result identical to the unbounded meaning",
+                      classify=classify_F3, extra=dict(budgets=maxb + 2, diverging_groups=sum(1 for g in groups if g.maydiverge)))
+
+
+def check_C17(tier, seed, replay=None):
+    """invalid UTF-8 is reported by default and matched bytewise when allowed"""
+    run = Run("C17", tier, seed)
+    FF = F.FFFD
+    leaves = [("any",), ("cls", (FF,), (), False, False), ("cls", (F.A,), (), True, False), ("lit", (FF,), False), ("lit", (F.A,), False),
+              ("lit", (F.A, F.EACUTE), False), ("cls", (F.EACUTE,), (), False, False)]
+    trees = F.exhaustive(1, leaves)
+    trees += [("action", ("seq", ("label", t), ("star", ("any",)))) for t in leaves]
+    groups = F.groups_from_trees(trees)
+    nrand = 100 if tier == "quick" else 600
+    groups += F.random_groups(seed, nrand, F.RandCfg(depth=3, leaves=leaves, preds=True), gi0=len(groups) + 1)
+    bts = [0x61, 0xC3, 0xA9, 0x80, 0xFF, 0xED, 0xA0, 0xEF, 0xBF, 0xBD, 0xC0, 0xAF]
+    maxlen = 2 if tier == "quick" else 3
+    inputs = F.all_inputs(bts, maxlen)
+    rng = random.Random(seed)
+    extra_len = maxlen + 1
+    for _ in range(300 if tier == "quick" else 3000):
+        inputs.append([rng.choice(bts + [0xF0, 0x9F, 0x98, 0x80, 0xE2, 0x82, 0xAC, 0x0A]) for _ in range(rng.randint(extra_len, extra_len + 2))])
+    options = [opt(), opt(allowinv=True), opt(maxexpr=3000), opt(maxexpr=3000, allowinv=True)]
+    nin = len(inputs)
+
+    def plan_for(g):
+        return [(ii, oi) for ii in range(nin) for oi in ((2, 3) if g.maydiverge else (0, 1))]
+    div, tot = run.execute(groups, inputs, options, plan_for, FLAGSETS_2 + [["-optimize-basic-latin"]], lower=[[201, 233]])
+    return std_finish(run, div, tot, "E(1) over {., [U+FFFD], [^a], \"U+FFFD\", \"a\", \"a e-acute\", [e-acute]} + labelled/actioned variants + random grammars x ALL byte strings up to the bound over {61 C3 A9 80 FF ED A0 EF BF BD C0 AF} (truncated sequences, overlongs, surrogates, stray continuations, the real U+FFFD) + longer random byte strings x AllowInvalidUTF8 on/off; values, texts, offsets, positions and the invalid-encoding errors compared with PegRef's transcription of utf8.DecodeRune",
+                      extra=dict(inputs=len(inputs)))
